@@ -5,6 +5,7 @@ import (
 	"errors"
 	"fmt"
 	"github.com/freeconf/yang/fc"
+	"github.com/freeconf/yang/val"
 	"strings"
 
 	"github.com/freeconf/yang/meta"
@@ -172,6 +173,7 @@ func (p *c09) Cases(tier string, emit func(interface{})) {
 		emit(c09Case{Schema: "choicewhen", Part: "bfs", Store: st, Source: "json", Depth: c09Depth(tier) + 1})
 	}
 	emit(c09Case{Part: "structslice"})
+	emit(c09Case{Part: "defaults"})
 	// nodeutil.Reflect over Go structs does not implement choices (every read fails with
 	// "OnChoose not implemented"): only nodeutil.Node serves the struct-backed stores here
 	for _, st := range append(append([]string{}, store.Impls...), "node-struct", "node-structmap", "node-structembed") {
@@ -343,6 +345,9 @@ func (p *c09) Run(raw json.RawMessage) eng.Result {
 	if c.Part == "structslice" {
 		return c09StructSlice()
 	}
+	if c.Part == "defaults" {
+		return c09Defaults()
+	}
 	m := model.SharedSchema(schema)
 	newInst := func() *c09Inst { return &c09Inst{env: newEnv(schema, c.Store)} }
 	if c.Part == "history" {
@@ -482,5 +487,87 @@ func c09StructSlice() eng.Result {
 		}
 	}
 	res.Outcomes = []string{"structslice"}
+	return res
+}
+
+// part defaults: reading one leaf (Selection.GetValue) reports the default of a leaf inside a case
+// only when that case is the one in effect: the case that holds data, or, when none does, the default
+// case of the choice (RFC 7950 7.9.3) - at both levels of a nested choice. All subsets of set leaves
+// that keep to one case per choice, on every store.
+func init() {
+	model.Schemas["casedefaults"] = `module casedefaults { namespace "urn:cd"; prefix cd; revision 0;
+  leaf plain { type string; default "pd"; }
+  choice ch { default b;
+    case a { leaf a1 { type string; default "ad"; } leaf a2 { type string; } }
+    case b { leaf b1 { type string; default "bd"; }
+      choice in { default y; case x { leaf x1 { type string; default "xd"; } } case y { leaf y1 { type string; default "yd"; } } } } }
+}`
+}
+
+func c09Defaults() eng.Result {
+	var res eng.Result
+	ss := &sigSet{res: &res}
+	m := model.SharedSchema("casedefaults")
+	leaves := []string{"plain", "a1", "a2", "b1", "x1", "y1"}
+	defaults := map[string]string{"plain": "pd", "a1": "ad", "b1": "bd", "x1": "xd", "y1": "yd"}
+	for bits := 0; bits < 1<<uint(len(leaves)); bits++ {
+		set := map[string]bool{}
+		for i, l := range leaves {
+			set[l] = bits&(1<<uint(i)) != 0
+		}
+		caseA := set["a1"] || set["a2"]
+		caseB := set["b1"] || set["x1"] || set["y1"]
+		if (caseA && caseB) || (set["x1"] && set["y1"]) {
+			continue // two cases of one choice: no such data
+		}
+		inEffect := map[string]bool{"plain": true, "a1": caseA, "a2": caseA, "b1": !caseA, "x1": !caseA && set["x1"], "y1": !caseA && !set["x1"]}
+		doc := map[string]interface{}{}
+		for _, l := range leaves {
+			if set[l] {
+				doc[l] = "set-" + l
+			}
+		}
+		text, _ := json.Marshal(doc)
+		for _, st := range []string{"ref", "reflect-map", "node-map"} {
+			env := newEnv("casedefaults", st)
+			t, err := model.FromJSON(m.DataDefinitions(), text)
+			if err != nil {
+				panic(err)
+			}
+			if err := env.populate(t); err != nil {
+				panic(err)
+			}
+			res.States++
+			for _, l := range leaves {
+				var got val.Value
+				var gerr error
+				fr, msg, pan := eng.Recover(func() { got, gerr = env.b.Root().GetValue(l) })
+				res.Evals++
+				res.Nontriv++
+				want := ""
+				switch {
+				case set[l]:
+					want = "set-" + l
+				case inEffect[l]:
+					want = defaults[l]
+				}
+				site := fmt.Sprintf("C09/defaults/%s/%s", st, map[bool]string{true: "case-in-effect", false: "case-not-in-effect"}[inEffect[l] || set[l]])
+				desc := fmt.Sprintf("data %s, GetValue(%s)", text, l)
+				gotText := ""
+				if got != nil {
+					gotText = model.Lex(got)
+				}
+				switch {
+				case pan:
+					ss.add(site+"/panic:"+fr, desc+": "+msg)
+				case gerr != nil:
+					ss.add(site+"/error", desc+": "+gerr.Error())
+				case gotText != want:
+					ss.add(site+"/wrong-value", fmt.Sprintf("%s = %q, want %q", desc, gotText, want))
+				}
+			}
+		}
+	}
+	res.Outcomes = []string{"defaults"}
 	return res
 }
